@@ -46,18 +46,22 @@ def _other(kind, v):
 def table(ctx: Ctx, h: Harness):
     prog = ctx.prog
     ci = prog.cls("MatchCriteria")
-    if "_valid_operators" not in ci.attrs:
+    tname = "_valid_operators"
+    if tname not in ci.attrs:       # renamed: the class-level dict literal that has the XTCE spelling "==" among its keys
+        tname = next((k for k, v in ci.attrs.items() if isinstance(v, ast.Dict) and
+                      any(isinstance(x, ast.Constant) and x.value == "==" for x in v.keys)), None)
+    if tname is None:
         ctx.unknown("R6.1", f"{CMP}::MatchCriteria::_valid_operators", "operator table not found")
         return None
     try:
-        tab = h.it._eval_class_attr(ci, ci.attrs["_valid_operators"])
+        tab = h.it._eval_class_attr(ci, ci.attrs[tname])
     except (Unsupported, Raised) as e:
         ctx.unknown("R6.1", f"{CMP}::MatchCriteria::_valid_operators", f"table does not evaluate: {e}")
         return None
     if not isinstance(tab, dict):
         ctx.unknown("R6.1", f"{CMP}::MatchCriteria::_valid_operators", "operator table is not a dict")
         return None
-    node = ci.attrs["_valid_operators"]
+    node = ci.attrs[tname]
 
     def relation_of(v):
         """The relation a table value denotes, however it is spelled ('__le__', 'le', operator.le, ...)."""
@@ -330,14 +334,23 @@ def consumers(ctx: Ctx, h: Harness):
     """The consumers of a lookup list take the FIRST entry whose criteria hold, whatever its value (0 included)."""
     ENC = "xtce/encodings.py"
     for cls, arg in (("StringDataEncoding", "discrete_lookup_length"), ("BinaryDataEncoding", "size_discrete_lookup_list")):
-        fi = ctx.prog.func(f"{ENC}::{cls}._calculate_size")
-        site = f"{fi.key}::first-match"
+        fi = ctx.prog.func_opt(f"{ENC}::{cls}._calculate_size") or ctx.prog.resolve_method(cls, "parse_value")
+        if fi is None:
+            ctx.unknown("R6.consumer", f"{ENC}::{cls}", "no parse_value")
+            continue
+        site = f"{ENC}::{cls}._calculate_size::first-match"
         try:
             bad = None
             for vals, m, want in (([0, 16], [1, 1], 0), ([8, 16], [0, 1], 16), ([8, 0, 24], [0, 1, 1], 0), ([5, 6], [1, 1], 5)):
                 lk = ", ".join(f"comparisons.DiscreteLookup([comparisons.Comparison('{mm}', 'ONE')], {v})" for v, mm in zip(vals, m))
-                pkt = h.packet(b"", {"ONE": h.val("Int", 1)})
-                k, got = h.outcome(f"{cls}({arg}=[{lk}])._calculate_size(pkt)", ENC, pkt=pkt)
+                if ctx.prog.resolve_method(cls, "_calculate_size") is not None:
+                    pkt = h.packet(b"", {"ONE": h.val("Int", 1)})
+                    k, got = h.outcome(f"{cls}({arg}=[{lk}])._calculate_size(pkt)", ENC, pkt=pkt)
+                else:   # private helper renamed / inlined: observe the length through the cursor of the public decoder
+                    pkt = h.packet(b"AAAAAAAA", {"ONE": h.val("Int", 1)})
+                    k, got = h.outcome(f"{cls}({arg}=[{lk}]).parse_value(pkt)", ENC, pkt=pkt)
+                    if k == "ok":
+                        got = pkt.attrs["raw_data"].attrs.get("pos")
                 if k != "ok" or got != want:
                     bad = (f"{cls}: lookup values {vals} with entries matching {[bool(x) for x in m]} gives length {got!r}; "
                            f"the first matching entry has value {want}")
